@@ -170,6 +170,24 @@ fn check_serialisation_route(w: &World, root: Lid, stats: &mut Stats, route: u8)
                 )
             })
         }
+        3 => {
+            // the token stream, concatenated (it unwinds where the other routes return an error - O4 -,
+            // which is not judged; a text that it does produce is)
+            stats.inc("probe/c10_serialisations_through_tokens");
+            match real_call(|| {
+                let mut s = String::new();
+                for (_n, _o, t) in w.xot.tokens(h, Default::default(), xot::output::NoopNormalizer) {
+                    if t.space {
+                        s.push(' ');
+                    }
+                    s.push_str(&t.text);
+                }
+                s
+            }) {
+                Ok(s) => Ok(Ok(s)),
+                Err(_) => return Ok(None),
+            }
+        }
         _ => real_call(|| w.xot.to_string(h)),
     };
     let text = match produced {
@@ -339,6 +357,9 @@ fn extra(pre: &World, post: &mut World, t: &TraceOp, info: &StepInfo, stats: &mu
             return vec![e];
         }
         if let Err(e) = check_serialisation_route(post, *r, stats, 2) {
+            return vec![e];
+        }
+        if let Err(e) = check_serialisation_route(post, *r, stats, 3) {
             return vec![e];
         }
     }
